@@ -12,7 +12,7 @@ from typing import Dict, List, Tuple
 from ..asm import Buf, FlatBuf, Run
 from ..dofsym import KINDS, NumBlock, run_dofs
 from ..interp import Interp, Obj, Raised, Unsupported
-from ..model import AnalysisError, Model, src, walk_no_nested
+from ..model import staged, AnalysisError, Model, src, walk_no_nested
 from ..poly import Poly
 from .c04 import _kinds_in, _local_sites, _names_sites, _order_from_preds
 
@@ -503,12 +503,9 @@ def run(model: Model, rep, tier: str) -> None:
     rep.rule("C19-L5", "CompositeBasis accumulates the same offsets "
              "everywhere")
     rep.rule("C19-L6", "asm zips products over the same lists")
-    _l1(model, rep)
-    _l2(model, rep)
-    _l3(model, rep)
-    _l4(model, rep)
-    _l5(model, rep)
-    _l6(model, rep)
+    staged(lambda: _l1(model, rep), lambda: _l2(model, rep),
+           lambda: _l3(model, rep), lambda: _l4(model, rep),
+           lambda: _l5(model, rep), lambda: _l6(model, rep))
     rep.require_min("C19-L1", 6)
     rep.require_min("C19-L3", 12)
 
